@@ -156,6 +156,7 @@ type histMutation struct {
 	Focus *Opt   // option the second use should mention
 	Cmd   *Cmd   // command the uses should reach
 	Extra string // an extra token for the second vector (e.g. the old spelling, a removed choice)
+	Args1 []string // the command words of the first use, rendered before the model moved to state B (renamed commands)
 	live  func(b *Built) error
 }
 
@@ -189,6 +190,69 @@ func planMutation(r *Rand, d *Decl, kind string) *histMutation {
 		host := hosts[r.Intn(len(hosts))]
 		lg := d.newLateGroup(r, host, anc, "group", kind == "late-required-in-group")
 		return &histMutation{Kind: kind, Label: kind, Focus: lg.Opts[0], Cmd: cm, live: func(b *Built) error { return d.attachLate(b, lg) }}
+	case "alias-added", "command-renamed":
+		// Command.Name and Command.Aliases are public fields: a program that learns its aliases from a configuration
+		// file found by a first lenient parse assigns them between two parses
+		var cands []*Cmd
+		for _, cm := range d.Cmds {
+			if cm.Parent != nil {
+				cands = append(cands, cm)
+			}
+		}
+		if len(cands) == 0 {
+			return nil
+		}
+		cm := cands[r.Intn(len(cands))]
+		var a1 []string
+		for _, x := range cm.Chain()[1:] {
+			a1 = append(a1, x.Name)
+		}
+		m := &histMutation{Kind: kind, Label: kind, Cmd: cm, Args1: a1}
+		if kind == "alias-added" {
+			al := fmt.Sprintf("al%d", d.NewID())
+			cm.Aliases = append(append([]string{}, cm.Aliases...), al, al+"x")
+			na := cm.Aliases
+			m.live = func(b *Built) error {
+				if cm.FC == nil {
+					return fmt.Errorf("no live handle")
+				}
+				cm.FC.Aliases = append([]string{}, na...)
+				return nil
+			}
+		} else {
+			m.Extra = cm.Name // (the old name is now an unknown word or a plain argument, on both parsers alike)
+			cm.Name = fmt.Sprintf("rc%d", d.NewID())
+			nn := cm.Name
+			m.live = func(b *Built) error {
+				if cm.FC == nil {
+					return fmt.Errorf("no live handle")
+				}
+				cm.FC.Name = nn
+				return nil
+			}
+		}
+		return m
+	case "required-set":
+		// Option.Required is a public field: an option that the declaration leaves optional is made mandatory by
+		// the program (e.g. depending on a mode found in a first parse)
+		var cands []*Opt
+		for _, o := range d.Opts {
+			if !o.Required && !o.T.IsFunc() && !o.Prog && o.FO != nil && len(o.Defaults) == 0 && o.Env == "" && !o.Optional && (o.Long != "" || o.Short != 0) {
+				cands = append(cands, o)
+			}
+		}
+		if len(cands) == 0 {
+			return nil
+		}
+		f := cands[r.Intn(len(cands))]
+		f.Required = true
+		return &histMutation{Kind: kind, Label: kind, Cmd: f.Cmd, live: func(b *Built) error {
+			if f.FO == nil {
+				return fmt.Errorf("no live handle")
+			}
+			f.FO.Required = true
+			return nil
+		}}
 	case "rename-namespace":
 		var cands []*Grp
 		for _, g := range d.Grps {
@@ -421,6 +485,9 @@ func histParseStage(c *Ctx, d *Decl, kinds []string, firstUse string) string {
 		for _, cm := range m.Cmd.Chain()[1:] {
 			args1 = append(args1, cm.Name)
 		}
+		if m.Args1 != nil {
+			args1 = append([]string{}, m.Args1...)
+		}
 		if m.Kind == "rename-namespace" || m.Kind == "rename-option" || m.Kind == "delimiter" {
 			// (rendered with the old name: the model is already in state B, the token comes from the plan)
 			if m.Extra != "" {
@@ -522,7 +589,7 @@ func histCase(c *Ctx, d *Decl, kinds []string, firstUses []string) {
 	c.Held("history/"+hl+"/first-use="+fu, fmt.Sprintf("opts=%d cmds=%d", minInt(len(d.Opts), 40), minInt(len(d.Cmds), 12)))
 }
 
-var histAllParseKinds = []string{"late-group-on-command", "late-group-on-ancestor", "late-group-in-group", "rename-namespace", "rename-option", "delimiter", "choices-in-place", "choices-replaced", "late-required-group", "late-required-in-group", "none"}
+var histAllParseKinds = []string{"alias-added", "command-renamed", "required-set", "late-group-on-command", "late-group-on-ancestor", "late-group-in-group", "rename-namespace", "rename-option", "delimiter", "choices-in-place", "choices-replaced", "late-required-group", "late-required-in-group", "none"}
 
 // histChoiceCfg: small declarations in which most argument-taking options carry choices.
 func histChoiceCfg() *DeclCfg {
@@ -738,7 +805,7 @@ func histIniReuse(c *Ctx, d *Decl) string {
 		pi = safely(func() { err = ip.Parse(strings.NewReader(text)) })
 		return
 	}
-	variant := []string{"late-section", "late-section", "late-higher-ranked-option", "renamed-namespace"}[r.Intn(4)]
+	variant := []string{"late-section", "late-section", "late-higher-ranked-option", "renamed-namespace", "renamed-section"}[r.Intn(5)]
 	if variant != "late-section" {
 		// (a second as-defaults read does not replace what the first one stored: whether an option counts as
 		// "already set" is carried over between reads - not state-free; these variants read in normal mode)
@@ -840,6 +907,54 @@ func histIniReuse(c *Ctx, d *Decl) string {
 		}
 		if got := pv.Elem().Field(0).String(); err2 != nil || got != "second" || o.Val.String() != before {
 			c.Violate("history:late-higher-ranked-option:stale", "key %q in [%s] named option %s by its short name at the first read; then a nested group with an option whose ini-name is %q was added: the second read on the same IniParser returned %v, the new option holds %q (expected \"second\"), the old one went from %q to %q", key, sec, o.Field, key, err2, got, before, o.Val.String())
+		}
+		return variant
+	case "renamed-section":
+		// Group.ShortDescription is a public field (a program localises its titles, or renames the default group):
+		// a section is found by the description the group has when the file is read
+		var cands []*Opt
+		for _, o := range d.Opts {
+			if o.Grp.Desc != "" && o.Grp.FG != nil && !o.Grp.Inline && o.Cmd == d.Root && o.Long != "" && o.T.K == KString && o.T.W == WScalar && len(o.Choices) == 0 && !o.NoIni {
+				if iniKeySingles(d, []*Grp{o.Grp}, d.FullLong(o), o) {
+					cands = append(cands, o)
+				}
+			}
+		}
+		if len(cands) == 0 {
+			return ""
+		}
+		o := cands[r.Intn(len(cands))]
+		key := d.FullLong(o)
+		if err1, pi := read("[" + o.Grp.Desc + "]\n" + key + " = first\n"); pi != nil || err1 != nil || o.Val.String() != "first" {
+			return ""
+		}
+		oldSec := o.Grp.Desc
+		o.Grp.Desc = fmt.Sprintf("Rn Section %d", d.NewID())
+		o.Grp.FG.ShortDescription = o.Grp.Desc
+		err2, pi := read("[" + strings.ToLower(o.Grp.Desc) + "]\n" + key + " = second\n")
+		if pi != nil {
+			c.Violate("history:renamed-section:panic", "second read panicked: %s", pi.Value)
+			return variant
+		}
+		if err2 != nil || o.Val.String() != "second" {
+			c.Violate("history:renamed-section:new-name", "after the group's description changed from %q to %q a section of the new name is read as %v / value %q (expected \"second\")", oldSec, o.Grp.Desc, err2, o.Val.String())
+			return variant
+		}
+		for _, g := range d.Grps {
+			if g != o.Grp && strings.EqualFold(g.Desc, oldSec) {
+				return variant // (another group still answers to the old title)
+			}
+		}
+		err3, pi := read("[" + oldSec + "]\n" + key + " = third\n")
+		if pi != nil {
+			c.Violate("history:renamed-section:panic", "third read panicked: %s", pi.Value)
+			return variant
+		}
+		fe, _ := err3.(*flags.Error)
+		if !ignore && (fe == nil || fe.Type != flags.ErrUnknownGroup) {
+			c.Violate("history:renamed-section:old-name-accepted", "no group is titled %q any more, but reading that section returned %v and the option holds %q", oldSec, err3, o.Val.String())
+		} else if ignore && o.Val.String() != "second" {
+			c.Violate("history:renamed-section:old-name-accepted", "IgnoreUnknown: the stale section %q changed the option to %q", oldSec, o.Val.String())
 		}
 		return variant
 	default:
